@@ -515,29 +515,32 @@ func schedulesShard(shard, n int, thorough bool) *schedshard.Report {
 			}
 		}
 		sc := schedshard.Scenario{Name: s.String(), Bound: bound, Outcomes: map[string]int{}}
+		var commit func() // committed by visit: once per execution over all shards
 		st := explore.ExploreShard(bound, shard, n, func(c *explore.Ctx) {
 			var res result
 			vres := vsync.Run(c.Choose, 20000, func() {
 				res = pipeline(s, vsync.Go, func(d *bool) { vsync.Pause() })
 			})
-			sc.Steps += int64(vres.Steps)
-			extra := map[string]any{"choices": append([]int{}, c.Choices...), "preemptions": vres.Preempts, "script_index": si, "script": s.String(), "mode": "schedule"}
-			rep.Evals++
-			viol := func(key, what string) {
-				rep.Violations = append(rep.Violations, schedshard.Violation{Key: key, What: what, Replay: extra})
+			commit = func() {
+				sc.Steps += int64(vres.Steps)
+				extra := map[string]any{"choices": append([]int{}, c.Choices...), "preemptions": vres.Preempts, "script_index": si, "script": s.String(), "mode": "schedule"}
+				rep.Evals++
+				viol := func(key, what string) {
+					rep.Violations = append(rep.Violations, schedshard.Violation{Key: key, What: what, Replay: extra})
+				}
+				switch {
+				case vres.Deadlock:
+					viol("deadlock", fmt.Sprintf("%s: deadlock: %v", s, vres.Blocked))
+				case vres.Livelock:
+					viol("livelock", fmt.Sprintf("%s: no termination within the step horizon", s))
+				case len(vres.Panics) > 0:
+					viol("panic:"+firstLine(vres.Panics[0]), fmt.Sprintf("%s: %s", s, vres.Panics[0]))
+				default:
+					judgeTo(s, res, "schedule", viol)
+				}
+				sc.Outcomes[describe(res.got)+fmt.Sprint(" deadlock=", vres.Deadlock, " panics=", len(vres.Panics), " werr=", res.writerErr != nil, " rerr=", res.roundErr != nil)]++
 			}
-			switch {
-			case vres.Deadlock:
-				viol("deadlock", fmt.Sprintf("%s: deadlock: %v", s, vres.Blocked))
-			case vres.Livelock:
-				viol("livelock", fmt.Sprintf("%s: no termination within the step horizon", s))
-			case len(vres.Panics) > 0:
-				viol("panic:"+firstLine(vres.Panics[0]), fmt.Sprintf("%s: %s", s, vres.Panics[0]))
-			default:
-				judgeTo(s, res, "schedule", viol)
-			}
-			sc.Outcomes[describe(res.got)+fmt.Sprint(" deadlock=", vres.Deadlock, " panics=", len(vres.Panics), " werr=", res.writerErr != nil, " rerr=", res.roundErr != nil)]++
-		}, nil)
+		}, func(*explore.Ctx) { commit() })
 		sc.Executions, sc.MaxDepth = st.Executions, st.MaxDepth
 		rep.Diverged = append(rep.Diverged, st.Diverged...)
 		rep.Scenarios = append(rep.Scenarios, sc)
